@@ -15,7 +15,7 @@ func init() {
 		ID: "C04", Level: "exploration", PanicClause: "C04.panic",
 		Cases: func(tier string) int {
 			if tier == "quick" {
-				return 12000
+				return 24000
 			}
 			return 900000
 		},
